@@ -733,6 +733,8 @@ def step_order_rows(g: G, sch: Sch, final=False):
             nullable = [c for c in sch.names() if sch.cols[c]["null"] and not sch.cols[c]["zn"] and c not in cols and sch.cols[c]["type"] != "bool"]
             if nullable:
                 cols = [g.pick(nullable)] + cols
+                if limit is None and g.boolean(0.7):
+                    limit = g.pick([1, 2, 3])  # top-k over an ordering column with missing values
     rev = g.subset(cols, lo=1, hi=len(cols)) if g.boolean(0.5) else []
     return {"op": "order_rows", "cols": cols, "reverse": rev, "limit": limit}
 
